@@ -101,10 +101,102 @@ def now_without_ts(acc):
                      "{} not the minute of {} or {}".format(O.vstr(got), a, b))
 
 
+def omitted_ts_owned_clock(acc):
+    """'An omitted reference time means the current time': the harness owns the clock by
+    replacing the name `datetime` inside the parser module with a subclass whose now() is
+    controlled, at moments long after import (year end, leap day).  A result equal to the
+    real wall-clock answer is accepted too (an implementation may read the time differently)."""
+    m = core.load_repo()
+    real = m.datetime
+
+    def fake(at):
+        class FakeDT(real):
+            @classmethod
+            def now(cls, tz=None):
+                return at
+        return FakeDT
+
+    moments = [dt.datetime(2031, 12, 31, 23, 59, 30), dt.datetime(2032, 2, 29, 0, 0, 5), dt.datetime(2027, 4, 30, 12, 0)]
+    forms = [("now", None, "now"), ("now", None, "jetzt"), ("today", None, "today"), ("tomorrow", None, "tomorrow"),
+             ("yesterday", None, "gestern"), ("eom", None, "EOM"), ("this-wd", 4, "this friday"), ("next-wd", 0, "nächsten montag")]
+    for at in moments:
+        for concept, wd, text in forms:
+            try:
+                m.datetime = fake(at)
+                a = dt.datetime.now()
+                r = m.ctparse(text, timeout=0)
+                b = dt.datetime.now()
+            finally:
+                m.datetime = real
+            got = O.value(r.resolution) if r else None
+            ok = got in (G.rel_expected(concept, at, wd), G.rel_expected(concept, a, wd), G.rel_expected(concept, b, wd))
+            acc.case(("no-ts-owned", text, at), nontrivial=True, cls="omitted-reference-time(owned clock)",
+                     sample={"text": text, "ts": None, "clock_set_to": at.isoformat()})
+            if not ok:
+                acc.fail("omitted-ts-is-not-current-time", {"concept": "no-ts-owned", "text": text, "ts": None},
+                         "{!r} with the clock at {} -> {} (expected {})".format(text, at, O.vstr(got), O.vstr(G.rel_expected(concept, at, wd))))
+
+
+_CHILD = r"""
+import sys, json, datetime as D
+real = D.datetime
+state = {"now": real(2031, 12, 31, 23, 58, 0)}
+class FakeDT(real):
+    @classmethod
+    def now(cls, tz=None):
+        return state["now"]
+D.datetime = FakeDT                      # installed BEFORE the library is imported
+sys.path.insert(0, %(verif)r); sys.path.insert(0, %(repo)r)
+import logging; logging.disable(logging.CRITICAL)
+from qav import core, oracle as O
+m = core.load_repo()
+out = {}
+for at in (real(2032, 2, 29, 0, 0, 5), real(2033, 1, 1, 12, 30, 0)):
+    state["now"] = at                    # the clock has moved on since import
+    for text in %(texts)r:
+        a = real.now()
+        r = m.ctparse(text, timeout=0)
+        out[at.isoformat() + "|" + text] = [O.value(r.resolution) if r else None, a.isoformat()]
+print("@@R@@" + json.dumps(out))
+"""
+
+
+def omitted_ts_after_import(acc):
+    """same clause, with the clock owned from before the import of the library (fresh
+    subprocess): a reference time frozen at import time shows up as the import-time answer"""
+    import json
+    import subprocess
+    import sys as _sys
+    forms = [("now", None, "now"), ("today", None, "heute"), ("tomorrow", None, "tomorrow"), ("eoy", None, "EOY"),
+             ("this-wd", 2, "this wednesday")]
+    code = _CHILD % {"verif": core.VERIF, "repo": core.REPO, "texts": [f[2] for f in forms]}
+    p = subprocess.run([_sys.executable, "-W", "ignore", "-c", code], capture_output=True, text=True, timeout=600)
+    line = [l for l in p.stdout.splitlines() if l.startswith("@@R@@")]
+    if p.returncode != 0 or not line:
+        raise core.HarnessError("clock-owning subprocess failed: " + (p.stderr or p.stdout)[-800:])
+    out = json.loads(line[0][5:])
+    for key, (got, real_now) in sorted(out.items()):
+        at_s, text = key.split("|", 1)
+        at = dt.datetime.fromisoformat(at_s)
+        concept, wd, _ = [f for f in forms if f[2] == text][0]
+        got = tuple(got) if got is not None else None
+        real_a = dt.datetime.fromisoformat(real_now)
+        ok = got in (G.rel_expected(concept, at, wd), G.rel_expected(concept, real_a, wd),
+                     G.rel_expected(concept, real_a + dt.timedelta(minutes=1), wd))
+        acc.case(("no-ts-subprocess", key), nontrivial=True, cls="omitted-reference-time(clock owned before import)",
+                 sample={"text": text, "ts": None, "clock_at_import": "2031-12-31T23:58:00", "clock_at_call": at_s})
+        if not ok:
+            acc.fail("omitted-ts-is-not-current-time", {"concept": "no-ts-owned", "text": text, "ts": None},
+                     "{!r}: clock was 2031-12-31 23:58 at import and {} at the call -> {} (expected {})".format(
+                         text, at, O.vstr(got), O.vstr(G.rel_expected(concept, at, wd))))
+
+
 def run(ctx):
     forms = G.rel_forms()
     acc = core.Acc(ctx.pid)
     now_without_ts(acc)
+    omitted_ts_owned_clock(acc)
+    omitted_ts_after_import(acc)
     exhaustive = False
     if ctx.thorough:
         dates = list(O.cycle_dates())
@@ -122,9 +214,11 @@ def run(ctx):
 
 
 def replay(case):
-    if case.get("concept") == "now-no-ts":
+    if case.get("concept") in ("now-no-ts", "no-ts-owned"):
         acc = core.Acc("C03")
         now_without_ts(acc)
+        omitted_ts_owned_clock(acc)
+        omitted_ts_after_import(acc)
         for b, lst in acc.failures.items():
             return (b, lst[0][1])
         return None
